@@ -316,7 +316,9 @@ def _newline_free_lookahead(fn: FunctionInfo, restore: ast.Assign) -> bool:
     sn, rn = g.node_of(snaps[0]), g.node_of(restore)
     if not g.dominated_by(rn, [sn]):
         return False
-    between = g.reachable([m for m, _l in g.succ[sn]], blocked=[rn], labels_excluded=["exc"])
+    all_restores = [g.node_of(x) for x in walk_no_nested(fn.node) if isinstance(x, ast.Assign) and unparse(x.targets[0]) == unparse(restore.targets[0])
+                    and unparse(x.value) == restore.value.id]
+    between = g.reachable([m for m, _l in g.succ[sn]], blocked=all_restores, labels_excluded=["exc"])
     for nid in between:
         a = g.nodes[nid].ast
         if a is None:
@@ -329,7 +331,7 @@ def _newline_free_lookahead(fn: FunctionInfo, restore: ast.Assign) -> bool:
                     return False
                 continue
             meth = cn.split(".", 1)[1]
-            if meth in ("peek", "get_position", "current_token_text"):
+            if meth in ("peek", "get_position", "current_token_text", "emit", "ignore"):
                 continue
             if meth in ("accept", "accept_run", "ignore_run", "accept_prefix"):
                 lit = const_str(c.args[0]) if c.args else None
@@ -361,7 +363,7 @@ def r3_single_writer(ctx: Ctx) -> None:
     # the cursor moves only through primitives that account for lines: next() (calls _handle_line on a newline), backup(),
     # accept_prefix(<literal without newline>), the 3-letter mnemonic skip and the look-ahead restore in lex_opcode
     allowed_pos = {"a816.parse.scanner:Scanner.next", "a816.parse.scanner:Scanner.backup", "a816.parse.scanner:Scanner.accept_prefix",
-                   "a816.parse.scanner_states:accept_opcode", "a816.parse.scanner_states:lex_opcode"}
+                   "a816.parse.scanner_states:accept_opcode"}
     for fn in ctx.repo.all_functions():
         if not fn.module.name.startswith("a816.parse.scanner"):
             continue
